@@ -1,2 +1,194 @@
-(** C19 — property theorems only. *)
-From PV Require Import Lib.Common Model.C19_Pareto Proofs.C19_Pareto.
+(** C19 — property theorems only: statement, [exact] of a lemma proved elsewhere, [Print Assumptions].
+    Model: Model/C19_Pareto.v (mirrors core/util/pareto.py is_pareto_efficient, opt/algo/pymoo_addon.py dominates,
+    core/util/trans.py trans_ndpt_pseudo_dist, breed/prot/sel/prob/trans.py and breed/prot/sel/transfn.py
+    trans_ndpt_to_vec_dist).  Weighted rows: [nth i (weighted wt fmat) []]; larger is better after weighting. *)
+From Coq Require Import Permutation.
+From PV Require Import Lib.Common Model.C19_Pareto Proofs.C19_Pareto Proofs.C19_Order Proofs.C19_Dist Proofs.C19_Norm.
+Local Open Scope Q_scope.
+
+(** the while loop ends within npt iterations, for every point set and weight vector (no fuel exhaustion) *)
+Theorem C19_filter_terminates : forall wt fmat, exists idx, pareto_idx wt fmat = Some idx.
+Proof. intros wt fmat. eexists. apply pareto_idx_eq. Qed.
+Print Assumptions C19_filter_terminates.
+
+(** a marked point is dominated by no point of the set (at least as good in every weighted objective, strictly
+    better in one) *)
+Theorem C19_filter_sound : forall m wt fmat idx i j, rectm m fmat -> length wt = m -> pareto_idx wt fmat = Some idx ->
+  In i idx -> (j < length fmat)%nat ->
+  ~ (Forall2 Qle (nth i (weighted wt fmat) []) (nth j (weighted wt fmat) []) /\
+     exists k, (k < length (nth i (weighted wt fmat) []))%nat /\
+               nth k (nth i (weighted wt fmat) []) 0 < nth k (nth j (weighted wt fmat) []) 0).
+Proof. exact filter_sound_rel. Qed.
+Print Assumptions C19_filter_sound.
+
+(** every unmarked point is equalled or dominated by a marked one *)
+Theorem C19_filter_complete : forall m wt fmat idx i, rectm m fmat -> length wt = m -> pareto_idx wt fmat = Some idx ->
+  (i < length fmat)%nat -> ~ In i idx ->
+  exists j, In j idx /\ j <> i /\
+    (Forall2 Qeq (nth i (weighted wt fmat) []) (nth j (weighted wt fmat) []) \/
+     (Forall2 Qle (nth i (weighted wt fmat) []) (nth j (weighted wt fmat) []) /\
+      exists k, (k < length (nth i (weighted wt fmat) []))%nat /\
+                nth k (nth i (weighted wt fmat) []) 0 < nth k (nth j (weighted wt fmat) []) 0)).
+Proof. exact filter_complete_rel. Qed.
+Print Assumptions C19_filter_complete.
+
+(** mask and index forms agree: the index form is flatnonzero of the mask (increasing, duplicate-free, in range) *)
+Theorem C19_mask_index_agree : forall wt fmat, exists idx mask,
+  pareto_idx wt fmat = Some idx /\ pareto_mask wt fmat = Some mask /\ length mask = length fmat /\
+  idx = filter (fun i => nth i mask false) (seq 0 (length fmat)) /\
+  (forall i, (i < length fmat)%nat -> (nth i mask false = true <-> In i idx)) /\
+  (forall i, In i idx -> (i < length fmat)%nat) /\ NoDup idx.
+Proof. exact mask_index_agree_lemma. Qed.
+Print Assumptions C19_mask_index_agree.
+
+(** the set of efficient vectors is exactly the set of vectors of the point set that no point dominates
+    (an order-free description) ... *)
+Theorem C19_efficient_set_characterised : forall m wt fmat, rectm m fmat -> length wt = m ->
+  forall v, (exists idx i, pareto_idx wt fmat = Some idx /\ In i idx /\ Forall2 Qeq (nth i (weighted wt fmat) []) v) <->
+            ((exists r, In r (weighted wt fmat) /\ Forall2 Qeq r v) /\ forall q, In q (weighted wt fmat) -> domB q v = false).
+Proof. exact eff_char. Qed.
+Print Assumptions C19_efficient_set_characterised.
+
+(** ... hence unaffected by the order of the points *)
+Theorem C19_order_invariant : forall m wt fmat fmat', rectm m fmat -> length wt = m -> Permutation fmat fmat' ->
+  forall v, eff_vec wt fmat v <-> eff_vec wt fmat' v.
+Proof. exact order_invariant. Qed.
+Print Assumptions C19_order_invariant.
+
+(** positive rescaling of the objectives (column k of the weighted matrix times c_k > 0) changes neither the index
+    form nor the mask *)
+Theorem C19_positive_rescale_invariant : forall m wt c fmat, rectm m fmat -> length wt = m -> length c = m ->
+  Forall (fun a => 0 < a) c ->
+  pareto_idx (map2 Qmult wt c) fmat = pareto_idx wt fmat /\ pareto_mask (map2 Qmult wt c) fmat = pareto_mask wt fmat.
+Proof. exact positive_rescale_invariant. Qed.
+Print Assumptions C19_positive_rescale_invariant.
+
+(** the same for the point matrix itself: multiplying objective k of every point by c_k > 0 *)
+Theorem C19_positive_rescale_invariant_columns : forall m wt c fmat, rectm m fmat -> length wt = m -> length c = m ->
+  Forall (fun a => 0 < a) c ->
+  pareto_idx wt (map (fun r => map2 Qmult r c) fmat) = pareto_idx wt fmat /\
+  pareto_mask wt (map (fun r => map2 Qmult r c) fmat) = pareto_mask wt fmat.
+Proof. exact positive_rescale_columns. Qed.
+Print Assumptions C19_positive_rescale_invariant_columns.
+
+(** dominates: Pareto dominance (minimisation) on two feasible solutions, order of the violations otherwise;
+    a feasible solution dominates every infeasible one and is never dominated by one *)
+Theorem C19_dominates_spec : forall o1 c1 o2 c2, length o1 = length o2 ->
+  (c1 <= 0 -> c2 <= 0 -> (dominates_m o1 c1 o2 c2 = true <->
+       Forall2 Qle o1 o2 /\ exists k, (k < length o1)%nat /\ nth k o1 0 < nth k o2 0)) /\
+  (~ (c1 <= 0 /\ c2 <= 0) -> (dominates_m o1 c1 o2 c2 = true <-> c1 < c2)) /\
+  (c1 <= 0 -> ~ c2 <= 0 -> dominates_m o1 c1 o2 c2 = true) /\
+  (~ c1 <= 0 -> c2 <= 0 -> dominates_m o1 c1 o2 c2 = false).
+Proof. exact dominates_spec_lemma. Qed.
+Print Assumptions C19_dominates_spec.
+
+(** dominates is a strict partial order on (objective vector, violation) pairs *)
+Theorem C19_dominates_strict_order :
+  (forall o c, dominates_m o c o c = false) /\
+  (forall o1 c1 o2 c2, dominates_m o1 c1 o2 c2 = true -> dominates_m o2 c2 o1 c1 = false) /\
+  (forall o1 c1 o2 c2 o3 c3, length o1 = length o2 -> length o2 = length o3 ->
+     dominates_m o1 c1 o2 c2 = true -> dominates_m o2 c2 o3 c3 = true -> dominates_m o1 c1 o3 c3 = true).
+Proof. exact dominates_strict_order_lemma. Qed.
+Print Assumptions C19_dominates_strict_order.
+
+(** the (squared) result of the common body is the squared norm of the residual of the orthogonal projection of the
+    min-max-normalised point on the line spanned by [lin]: closed form  |p|^2 - (p.lin)^2/|lin|^2,  minimal among the
+    squared distances to all points t*lin of the line, residual orthogonal to the line *)
+Theorem C19_dist_is_residual_norm2 : forall m mat mulv lin, rectm m mat -> mat <> [] -> length mulv = m -> length lin = m ->
+  Exists (fun x => ~ x == 0) lin ->
+  trans_body true mat mulv lin = TFinite (map (residual2 lin (/ dotQ lin lin)) (normalised mat mulv)) /\
+  length (normalised mat mulv) = length mat /\
+  Forall (fun p => length p = m /\
+                   residual2 lin (/ dotQ lin lin) p == dotQ p p - dotQ p lin * dotQ p lin / dotQ lin lin /\
+                   (forall t, residual2 lin (/ dotQ lin lin) p <= dist2_to lin p t) /\
+                   dotQ (map2 Qminus p (map (fun l => (/ dotQ lin lin * dotQ p lin) * l) lin)) lin == 0)
+         (normalised mat mulv).
+Proof. exact dist_geometric. Qed.
+Print Assumptions C19_dist_is_residual_norm2.
+
+(** the normalised points are the min-max scaling of the signed columns: entry (i,k) is (x_ik - min_k)/(max_k - min_k)
+    with min_k, max_k the attained column extremes, and 0 when the objective is constant; all entries lie in [0,1] *)
+Theorem C19_normalised_is_minmax_scaling : forall m mat mulv i k, rectm m mat -> length mulv = m -> (i < length mat)%nat -> (k < m)%nat ->
+  let colk := map (fun r => nth k r 0) (map (fun r => map2 Qmult r mulv) mat) in
+  exists mn mx, In mn colk /\ In mx colk /\ Forall (fun y => mn <= y <= mx) colk /\
+    nth k (nth i (normalised mat mulv) []) 0 == (if Qeq_bool (mx - mn) 0 then 0 else (nth i colk 0 - mn) / (mx - mn)).
+Proof. exact normalised_minmax. Qed.
+Print Assumptions C19_normalised_is_minmax_scaling.
+
+Theorem C19_normalised_range : forall m mat mulv, rectm m mat -> length mulv = m ->
+  Forall (Forall (fun y => 0 <= y <= 1)) (normalised mat mulv).
+Proof. exact normalised_range. Qed.
+Print Assumptions C19_normalised_range.
+
+(** core/util/trans.py is that body with the columns signed by objfn_minmax and the line spanned by the pseudoweights *)
+Theorem C19_dist_core_roles : forall mat minmax pw, Forall (fun x => 0 <= x) pw -> Exists (fun x => 0 < x) pw ->
+  trans_core mat minmax pw = trans_body true mat minmax pw.
+Proof. exact trans_core_body. Qed.
+Print Assumptions C19_dist_core_roles.
+
+(** translation of the front does not change the distances: all three functions (the selection copies are
+    [trans_body true mat vec_wt obj_wt]), and also the unguarded variant *)
+Theorem C19_translation_invariant : forall m guard mat t mulv lin, rectm m mat -> length t = m -> length mulv = m ->
+  tres_eq (trans_body guard (map (fun r => map2 Qplus r t) mat) mulv lin) (trans_body guard mat mulv lin).
+Proof. exact translation_invariant_lemma. Qed.
+Print Assumptions C19_translation_invariant.
+
+Theorem C19_translation_invariant_core : forall m mat t minmax pw, rectm m mat -> length t = m -> length minmax = m ->
+  tres_eq (trans_core (map (fun r => map2 Qplus r t) mat) minmax pw) (trans_core mat minmax pw).
+Proof. exact translation_invariant_core. Qed.
+Print Assumptions C19_translation_invariant_core.
+
+(** finite (and non-negative, one value per point) whatever the columns are — in particular when an objective is
+    constant: the core function for every non-negative non-zero preference vector ... *)
+Theorem C19_finite_when_constant_core : forall mat minmax pw, mat <> [] -> Forall (fun x => 0 <= x) pw -> Exists (fun x => 0 < x) pw ->
+  exists d2, trans_core mat minmax pw = TFinite d2 /\ length d2 = length mat /\ Forall (fun d => 0 <= d) d2.
+Proof. exact finite_core. Qed.
+Print Assumptions C19_finite_when_constant_core.
+
+(** ... and both selection copies (current code, guard present) for every non-zero line vector *)
+Theorem C19_finite_when_constant_sel : forall mat obj_wt vec_wt, mat <> [] -> Exists (fun x => ~ x == 0) obj_wt ->
+  (exists d2, trans_sel_prob mat obj_wt vec_wt = TFinite d2 /\ length d2 = length mat /\ Forall (fun d => 0 <= d) d2) /\
+  (exists d2, trans_sel_fn mat obj_wt vec_wt = TFinite d2 /\ length d2 = length mat /\ Forall (fun d => 0 <= d) d2).
+Proof. intros mat o v Hm Ho. split; now apply finite_guarded. Qed.
+Print Assumptions C19_finite_when_constant_sel.
+
+(** the selection copies as they were before commit 47ce3c75 (no guard): a constant objective gives NaN *)
+Theorem C19_finite_unguarded_refuted : exists mat obj_wt vec_wt, mat <> [] /\ Forall (fun x => 0 <= x) vec_wt /\
+  Exists (fun x => 0 < x) vec_wt /\ Exists (fun x => ~ x == 0) obj_wt /\ trans_sel_unguarded mat obj_wt vec_wt = TNonFinite.
+Proof. exact unguarded_refuted. Qed.
+Print Assumptions C19_finite_unguarded_refuted.
+
+(** the selection copies multiply the columns by vec_wt (documented as the preference vector) and measure the
+    distance to the line spanned by obj_wt (documented as the +1/-1 signs): they are the core function with the
+    two vectors exchanged ... *)
+Theorem C19_sel_is_core_with_exchanged_roles : forall mat obj_wt vec_wt, Forall (fun x => 0 <= x) obj_wt -> Exists (fun x => 0 < x) obj_wt ->
+  trans_sel_prob mat obj_wt vec_wt = trans_core mat vec_wt obj_wt /\ trans_sel_fn mat obj_wt vec_wt = trans_core mat vec_wt obj_wt.
+Proof. exact sel_is_core_swapped. Qed.
+Print Assumptions C19_sel_is_core_with_exchanged_roles.
+
+(** ... so with the documented roles they do not compute the distance to the preference vector (known finding
+    C19-trans-roles-swapped) ... *)
+Theorem C19_sel_documented_roles_refuted : exists mat sign pref,
+  Forall (fun s => s == 1 \/ s == -(1)) sign /\ Forall (fun x => 0 <= x) pref /\ Exists (fun x => 0 < x) pref /\
+  ~ tres_eq (trans_sel_prob mat sign pref) (trans_core mat sign pref) /\
+  ~ tres_eq (trans_sel_fn mat sign pref) (trans_core mat sign pref).
+Proof. exact sel_roles_refuted. Qed.
+Print Assumptions C19_sel_documented_roles_refuted.
+
+(** ... except when both vectors coincide (the default keyword arguments: two all-ones vectors) *)
+Theorem C19_sel_documented_roles_partial : forall mat w, Forall (fun x => 0 <= x) w -> Exists (fun x => 0 < x) w ->
+  trans_sel_prob mat w w = trans_core mat w w /\ trans_sel_fn mat w w = trans_core mat w w.
+Proof. exact sel_roles_partial. Qed.
+Print Assumptions C19_sel_documented_roles_partial.
+
+(** non-vacuity: concrete values meeting the hypotheses *)
+Example C19_hyps_satisfiable :
+  rectm 2 [[1; 2]; [2; 1]; [1; 1]; [2; 1]] /\ length [1; -(1 # 2)] = 2%nat /\ Forall (fun a => 0 < a) [2; 1 # 4] /\
+  pareto_idx [1; 1] [[1; 2]; [2; 1]; [1; 1]; [2; 1]] = Some [0%nat; 1%nat] /\
+  pareto_mask [1; 1] [[1; 2]; [2; 1]; [1; 1]; [2; 1]] = Some [true; true; false; false] /\
+  Forall (fun x => 0 <= x) [1 # 2; 0] /\ Exists (fun x => 0 < x) [1 # 2; 0] /\ Exists (fun x => ~ x == 0) [1; -(1)] /\
+  dominates_m [1; 2] 0 [1; 3] (-(1)) = true /\ dominates_m [5; 5] (-(1)) [0; 0] (1 # 2) = true /\
+  tres_eq (trans_core [[1; 5]; [2; 5]; [4; 5]] [1; 1] [1; 1]) (TFinite [0; 1 # 18; 1 # 2]).
+Proof.
+  repeat split; try reflexivity; repeat constructor; try (unfold Qlt, Qle; cbn; lia); try (intro H; discriminate H).
+Qed.
